@@ -440,7 +440,7 @@ def decide_ref(pid, tier, sd):
     h = build_harness()
     if not h["ok"]:
         return _fail_build(pid, ev, "harness does not build against /repo", h["log"])
-    d = build_xdriver("rdriver", [os.path.join(COQ, "theories", "Ref", f) for f in ("Sha256.v", "Merkle.v", "RefModel.v")], "ExtractRef.v", ["rmodel.mli", "rmodel.ml", "rdriver.ml"])
+    d = build_xdriver("rdriver", [os.path.join(COQ, "theories", "Ref", f) for f in ("Sha256.v", "Merkle.v", "RefModel.v", "Recovery.v")], "ExtractRef.v", ["rmodel.mli", "rmodel.ml", "rdriver.ml"])
     if not d["ok"]:
         return _fail_build(pid, ev, "extracted reference-code driver does not build", d["log"])
     n = 400 if tier == "quick" else 20000
@@ -452,6 +452,7 @@ def decide_ref(pid, tier, sd):
             hp = subprocess.run([h["bin"], "ref", str(sd), str(n)], stdout=f, stderr=subprocess.PIPE, text=True, timeout=1500)
         dr = sh([d["bin"], out], check=False, timeout=3000)
         hits, cnt, samples, nh, nm = [], 0, [], 0, 0
+        kinds = {}
         with open(out) as f:
             for line in f:
                 if line.startswith("MON C19 "):
@@ -459,6 +460,9 @@ def decide_ref(pid, tier, sd):
                     hits.append({"sig": p_[2], "desc": line.split("|", 1)[1].strip()[:300]})
                 elif line.startswith("MONCNT C19"):
                     cnt = int(line.split()[2])
+                elif line.startswith("RMADD "):
+                    k_ = line.split(" ", 2)[1]
+                    kinds[k_] = kinds.get(k_, 0) + 1
                 elif line.startswith("H256"):
                     nh += 1
                 elif line.startswith("MK"):
@@ -466,16 +470,18 @@ def decide_ref(pid, tier, sd):
                     if len(samples) < 2:
                         samples.append(line.strip()[:200])
         os.remove(out)
-        m = re.search(r"RSUMMARY hashes (\d+) trees (\d+) disagreements (\d+)", dr.stdout)
+        m = re.search(r"RSUMMARY hashes (\d+) trees (\d+) disagreements (\d+) recovery-dumps (\d+) packed (\d+) payload-codec (\d+)", dr.stdout)
         return {"harness_rc": hp.returncode, "harness_err": hp.stderr[-500:], "driver_rc": dr.returncode, "summary": [int(x) for x in m.groups()] if m else None,
-                "rdiff": [l for l in dr.stdout.split("\n") if l.startswith("RDIFF")][:20], "hits": hits, "checks": cnt, "samples": samples, "nh": nh, "nm": nm}
+                "rdiff": [l for l in dr.stdout.split("\n") if l.startswith("RDIFF")][:20], "hits": hits, "checks": cnt, "samples": samples, "nh": nh, "nm": nm, "rm_kinds": kinds}
     r = cached(key, go)
     known_sigs, known_hits, new_hits = props.classify_hits(pid, [dict(x, prop=pid) for x in r["hits"]])
     cov = ev["coverage"]
-    cov.update({"evaluations": r["checks"] + r["nh"] + r["nm"], "distinct_nontrivial": r["checks"],
-                "rule": "monitor checks on the real internal/consensus, internal/crypto, internal/merkle code: single-field mutations of payloads of every kind and of blocks, same-object index change, encode/decode round trips (also into a used object), recovery-message packing, %d arbitrary / mutated byte strings into the decoder under recover, sign/verify with wrong key / altered data / altered signature, leaf and order changes of Merkle trees; plus %d Hash256 digests and %d Merkle roots compared with the extracted Coq SHA-256 / Merkle model" % (n, r["nh"], r["nm"]),
+    nrm = (r["summary"] or [0, 0, 0, 0, 0, 0])[3]
+    npt = (r["summary"] or [0, 0, 0, 0, 0, 0])[5]
+    cov.update({"evaluations": r["checks"] + r["nh"] + r["nm"] + nrm + npt, "distinct_nontrivial": r["checks"],
+                "rule": "monitor checks on the real internal/consensus, internal/crypto, internal/merkle code: single-field mutations of payloads of every kind and of blocks, same-object index change, encode/decode round trips (also into a used object), recovery-message packing, %d arbitrary / mutated byte strings into the decoder under recover, sign/verify with wrong key / altered data / altered signature, leaf and order changes of Merkle trees; plus %d Hash256 digests and %d Merkle roots compared with the extracted Coq SHA-256 / Merkle model; plus %d dumps of what generated recovery messages rebuild (request, responses, ChangeViews, pre-commits, commits - on the sender and after encode/decode of the recovery payload) compared with the extracted model of AddPayload / Get* / the fields the codec carries (Ref/Recovery.v); packed payloads by kind: %s; plus %d generated payloads of the five packable kinds whose decode(encode(p)) is compared field by field with the model's transmit_payload" % (n, r["nh"], r["nm"], nrm, json.dumps(r.get("rm_kinds", {}), sort_keys=True), npt),
                 "samples": r["samples"], "disagreements_checked": len(r["rdiff"]), "cache_reused": r.get("_cache_reused", False),
-                "explanation": "proved: Merkle-tree structure (same-length injectivity under collision freedom; duplicate-last-leaf refuted for every hash function), the Coq SHA-256 on the FIPS vector. Not provable here and only exercised: collision resistance of SHA-256, ECDSA, clean failure of encoding/gob's decoder on arbitrary bytes; the gob byte format is not modelled (the payload-hash clauses are decided by the mutation monitors on the real code)."})
+                "explanation": "proved: Merkle-tree structure (same-length injectivity under collision freedom; duplicate-last-leaf refuted for every hash function), the Coq SHA-256 on the FIPS vector; for every packing sequence of the recovery message: the proposal packed last is rebuilt as itself (hence with its hash) under a recovery payload of its height and view, rebuilt responses name it, commits / pre-commits / ChangeViews are neither dropped nor duplicated nor reordered and keep signer and signature / data, and across the codec everything but the responses packed together with the proposal survives (D19 as a theorem about every such message). Not provable here and only exercised: collision resistance of SHA-256, ECDSA, clean failure of encoding/gob's decoder on arbitrary bytes; the gob byte format is not modelled (the payload-hash clauses are decided by the mutation monitors on the real code)."})
     lines, violation = [], False
     broken_tie = r["summary"] is None or r["summary"][2] != 0 or r["harness_rc"] != 0 or r["driver_rc"] != 0
     if new_hits:
